@@ -20,12 +20,18 @@ def _env_known(name):
 
 
 def _env_value(name):
-    """What a consulted variable is set to for the second run: a locale whose case mapping differs from ASCII's for the
-    variables that name a locale (nothing in the Go test process reads them unless the code under test does), else 1."""
+    """What a consulted variable is set to for the second run, or None if it is left alone.
+    Settings that are meant to be observational must not change results: variables that name a locale get a locale whose
+    case mapping differs from ASCII's, debug / trace / verbosity switches are switched on. Everything else the code under
+    test consults is an operator's policy knob (limits, sizes, time-outs, modes): what the service does once an operator
+    has asked for a restriction is the operator's decision, not a statement about the code's behaviour by default, so these
+    are listed in the evidence and not varied (F29)."""
     u = name.upper()
     if u in ("LANG", "LANGUAGE") or u.startswith("LC_") or "LOCALE" in u or u.endswith("_LANG"):
         return "tr_TR.UTF-8"
-    return "1"
+    if any(w in u for w in ("DEBUG", "TRACE", "VERBOSE")):
+        return "1"
+    return None
 
 
 def _build_h09(ctx, mode="trace"):
@@ -270,6 +276,8 @@ def execute(ctx):
                     consulted.add(line[7:].strip())
         unknown = sorted(n for n in consulted if not _env_known(n))
         extra["environment"] = {"variables_consulted_by_code_under_test": unknown}
+        extra["environment"]["left_alone_as_operator_policy"] = [n for n in unknown if _env_value(n) is None]
+        unknown = [n for n in unknown if _env_value(n) is not None]
         if unknown:
             def again(job):
                 name, cmd, env, tmo, cwd = job
